@@ -20,8 +20,8 @@ CHECKS = {
  "C05": ("exploration", "bounded-exhaustive enumeration + proptest vs independent encoder/decoder (differential, round trip)",
          "Every valid list of <=2 entries over boundary value sets (<=3 over reduced/full sets) and seeded random lists up to 10^4/10^5 entries are serialised by the library and compared byte-for-byte with an independent spec-level encoder, parsed from the independent encoder's output (canonical and non-eliding spellings) and round-tripped in all sync/async pairings under all four codecs. Search, not proof: covers the boundary lattice completely and the rest by sampling.",
          "Trusted: harness/src/spec/{varint,directory}.rs (written from the specification), flate2/brotli/zstd as decompressors.", "DESIGN.md §4 C05"),
- "C07": ("exploration", "bounded-exhaustive enumeration (all ids of zooms 0..12 / 0..15) + proptest vs independent Hilbert implementation",
-         "Both conversions are compared with an independent rotate-and-flip implementation for every tile id of zooms 0-12 (quick) / 0-15 (thorough) together with block contiguity, edge adjacency and the aligned child block; boundary, bit-pattern and uniform points at every zoom 0-31, ids beyond the domain, and generated out-of-grid coordinate lookups against archives holding every tile the coordinates could alias to. Exhaustive below the zoom bound, sampled above it.",
+ "C07": ("exploration", "bounded-exhaustive enumeration (all ids of zooms 0..12 / 0..16) + proptest vs independent Hilbert implementation",
+         "Both conversions are compared with an independent rotate-and-flip implementation for every tile id of zooms 0-12 (quick) / 0-16 (thorough) together with block contiguity, edge adjacency and the aligned child block; boundary, bit-pattern and uniform points at every zoom 0-31, ids beyond the domain, and generated out-of-grid coordinate lookups against archives holding every tile the coordinates could alias to. Exhaustive below the zoom bound, sampled above it.",
          "Trusted: harness/src/spec/hilbert.rs (the specification's algorithm).", "DESIGN.md §4 C07"),
  "C10": ("exploration", "proptest duplication patterns and histories; independent greedy RLE + sum-of-distinct oracle; hook-observed retention invariant after every step",
          "Engineered duplication patterns on top of empty and undeduplicated foreign archives are written and parsed by the independent reader: tile-data length = sum of distinct content lengths, equal content <=> equal (offset,length), entry list = greedy run-length encoding of the model (hence not mergeable further). Edit histories check after every step that the builder holds exactly one copy per live in-memory content (verif hook). Sampling search with class floors.",
